@@ -139,7 +139,7 @@ theorem rfcEncode_ne_nil (f : Frame) (k : Bytes) : (rfcEncode f k ++ x).isEmpty 
 /-- frames sharing a segment: each is handed over exactly as sent, then the
     loop continues on what follows -/
 theorem webLoop_wire (fs : List (Bytes × Frame)) (t : Bytes) (m : Nat)
-    (hwf : ∀ p ∈ fs, p.2.WF p.1 ∧ p.2.opcode ≠ 8) :
+    (hwf : ∀ p ∈ fs, p.2.WF p.1 ∧ p.2.opcode ≠ Px.Gen.wsOpClose) :
     webLoop (fs.length + m) Inst.fresh (wire fs ++ t) =
       ((fs.map fun p => deliv p.1 p.2) ++ (webLoop m Inst.fresh t).1, (webLoop m Inst.fresh t).2) := by
   induction fs with
@@ -152,7 +152,7 @@ theorem webLoop_wire (fs : List (Bytes × Frame)) (t : Bytes) (m : Nat)
     simp only [List.length_cons, e, wire, List.append_assoc]
     conv => lhs; unfold webLoop
     rw [rfcEncode_ne_nil, parseSt_fresh_build rnd f _ hp.1]
-    have ho : ((deliv rnd f).opcode == 8) = false := by
+    have ho : ((deliv rnd f).opcode == Px.Gen.wsOpClose) = false := by
       simp only [deliv]; exact beq_false_of_ne hp.2
     simp only [Bool.false_eq_true, if_false, ho, Inst.reset, ih, List.map_cons, List.cons_append]
 
